@@ -16,8 +16,11 @@ correspondence) and the type checker model (AgModel/Pipeline.lean):
 * every documented synonym pair, and every built-in alias against its expansion, evaluated on
   concrete queries through the whole parser.
 
-Open (known_findings.json): C20/by-header-depends-on-spelling — `by_header_counterexample`;
-C20/identifier-prefix-collides-with-keyword — `keyword_prefix_counterexample`.
+* keywords end at a word boundary (repo commit 0324001): `C20_sort_direction_glued`,
+  `C20_fields_mode_glued`, `C20_keyword_prefix_instances` (bare name ≡ `["name"]` for names that
+  start with a keyword).
+
+Open (known_findings.json): C20/by-header-depends-on-spelling — `by_header_counterexample`.
 -/
 import AgModel.Lang.Parser
 import AgModel.Pipeline
@@ -41,43 +44,101 @@ def sortModeOld : P SortDir :=
         pmap (fun _ => SortDir.desc) (tag "desc"), pmap (fun _ => SortDir.desc) (tag "dsc"),
         pmap (fun _ => SortDir.desc) (tag "descending")]
 
-theorem sortMode_ascending (rest : List Char) (e : Nat) :
+theorem sortMode_ascending (rest : List Char) (e : Nat) (h : Boundary rest) :
     sortMode (q!"ascending" ++ rest) e = .ok .asc rest e := by
-  simp [sortMode, altL, alt, pmap, tag, Text.stripPrefix?, Res.castErr]
+  have hk := kw_boundary "ascending" q!"ascending" rest rfl e h
+  simp only [List.cons_append, List.nil_append] at hk
+  simp [sortMode, altL, alt, pmap, Res.castErr, hk]
 
-theorem sortMode_descending (rest : List Char) (e : Nat) :
-    sortMode (q!"descending" ++ rest) e = .ok .desc rest e := by
-  simp [sortMode, altL, alt, pmap, tag, Text.stripPrefix?, Res.castErr]
-
-theorem sortMode_dsc (rest : List Char) (e : Nat) :
-    sortMode (q!"dsc" ++ rest) e = .ok .desc rest e := by
-  simp [sortMode, altL, alt, pmap, tag, Text.stripPrefix?, Res.castErr]
-
-/-- the continuation does not itself continue the long spelling -/
-def stop (rest : List Char) : Prop := Text.stripPrefix? q!"ending" rest = none
-
-theorem sortMode_asc (rest : List Char) (e : Nat) (h : stop rest) :
+theorem sortMode_asc (rest : List Char) (e : Nat) (h : Boundary rest) :
     sortMode (q!"asc" ++ rest) e = .ok .asc rest e := by
-  have h' : Text.stripPrefix? ['e', 'n', 'd', 'i', 'n', 'g'] rest = none := h
-  simp [sortMode, altL, alt, pmap, tag, Text.stripPrefix?, Res.castErr, h']
+  have h1 : kw "ascending" (q!"asc" ++ rest) e = .fail (q!"asc" ++ rest) e := by
+    apply kw_mismatch
+    show Text.stripPrefix? q!"ascending" (q!"asc" ++ rest) = none
+    cases rest with
+    | nil => simp [Text.stripPrefix?]
+    | cons c r =>
+      have hc := h c r rfl
+      by_cases he : c = 'e'
+      · subst he; simp [isIdentCh, isAlnum8, isAlpha8] at hc
+      · simp [Text.stripPrefix?, Ne.symm he]
+  have hk := kw_boundary "asc" q!"asc" rest rfl e h
+  simp only [List.cons_append, List.nil_append] at hk h1
+  simp [sortMode, altL, alt, pmap, Res.castErr, hk, h1]
 
-theorem sortMode_desc (rest : List Char) (e : Nat) (h : stop rest) :
+theorem sortMode_descending (rest : List Char) (e : Nat) (h : Boundary rest) :
+    sortMode (q!"descending" ++ rest) e = .ok .desc rest e := by
+  have h1 : kw "ascending" (q!"descending" ++ rest) e = .fail (q!"descending" ++ rest) e :=
+    kw_mismatch _ _ _ (by show Text.stripPrefix? q!"ascending" _ = none; simp [Text.stripPrefix?])
+  have h2 : kw "asc" (q!"descending" ++ rest) e = .fail (q!"descending" ++ rest) e :=
+    kw_mismatch _ _ _ (by show Text.stripPrefix? q!"asc" _ = none; simp [Text.stripPrefix?])
+  have hk := kw_boundary "descending" q!"descending" rest rfl e h
+  simp only [List.cons_append, List.nil_append] at hk h1 h2
+  simp [sortMode, altL, alt, pmap, Res.castErr, hk, h1, h2]
+
+theorem sortMode_desc (rest : List Char) (e : Nat) (h : Boundary rest) :
     sortMode (q!"desc" ++ rest) e = .ok .desc rest e := by
-  have h' : Text.stripPrefix? ['e', 'n', 'd', 'i', 'n', 'g'] rest = none := h
-  simp [sortMode, altL, alt, pmap, tag, Text.stripPrefix?, Res.castErr, h']
+  have h1 : kw "ascending" (q!"desc" ++ rest) e = .fail (q!"desc" ++ rest) e :=
+    kw_mismatch _ _ _ (by show Text.stripPrefix? q!"ascending" _ = none; simp [Text.stripPrefix?])
+  have h2 : kw "asc" (q!"desc" ++ rest) e = .fail (q!"desc" ++ rest) e :=
+    kw_mismatch _ _ _ (by show Text.stripPrefix? q!"asc" _ = none; simp [Text.stripPrefix?])
+  have h3 : kw "descending" (q!"desc" ++ rest) e = .fail (q!"desc" ++ rest) e := by
+    apply kw_mismatch
+    show Text.stripPrefix? q!"descending" (q!"desc" ++ rest) = none
+    cases rest with
+    | nil => simp [Text.stripPrefix?]
+    | cons c r =>
+      have hc := h c r rfl
+      by_cases he : c = 'e'
+      · subst he; simp [isIdentCh, isAlnum8, isAlpha8] at hc
+      · simp [Text.stripPrefix?, Ne.symm he]
+  have hk := kw_boundary "desc" q!"desc" rest rfl e h
+  simp only [List.cons_append, List.nil_append] at hk h1 h2 h3
+  simp [sortMode, altL, alt, pmap, Res.castErr, hk, h1, h2, h3]
 
-/-- **C20 (sort directions).** `asc` ≡ `ascending` and `desc` ≡ `dsc` ≡ `descending`, whatever
-follows. -/
-theorem C20_sort_direction_synonyms (rest : List Char) (e : Nat) (h : stop rest) :
+theorem sortMode_dsc (rest : List Char) (e : Nat) (h : Boundary rest) :
+    sortMode (q!"dsc" ++ rest) e = .ok .desc rest e := by
+  have h1 : kw "ascending" (q!"dsc" ++ rest) e = .fail (q!"dsc" ++ rest) e :=
+    kw_mismatch _ _ _ (by show Text.stripPrefix? q!"ascending" _ = none; simp [Text.stripPrefix?])
+  have h2 : kw "asc" (q!"dsc" ++ rest) e = .fail (q!"dsc" ++ rest) e :=
+    kw_mismatch _ _ _ (by show Text.stripPrefix? q!"asc" _ = none; simp [Text.stripPrefix?])
+  have h3 : kw "descending" (q!"dsc" ++ rest) e = .fail (q!"dsc" ++ rest) e :=
+    kw_mismatch _ _ _ (by show Text.stripPrefix? q!"descending" _ = none; simp [Text.stripPrefix?])
+  have h4 : kw "desc" (q!"dsc" ++ rest) e = .fail (q!"dsc" ++ rest) e :=
+    kw_mismatch _ _ _ (by show Text.stripPrefix? q!"desc" _ = none; simp [Text.stripPrefix?])
+  have hk := kw_boundary "dsc" q!"dsc" rest rfl e h
+  simp only [List.cons_append, List.nil_append] at hk h1 h2 h3 h4
+  simp [sortMode, altL, alt, pmap, Res.castErr, hk, h1, h2, h3, h4]
+
+/-- **C20 (sort directions).** `asc` ≡ `ascending` and `desc` ≡ `dsc` ≡ `descending`, for every
+continuation that starts at a word boundary (blank, `|`, end of the query …); each spelling consumes
+exactly the word. -/
+theorem C20_sort_direction_synonyms (rest : List Char) (e : Nat) (h : Boundary rest) :
     sortMode (q!"ascending" ++ rest) e = sortMode (q!"asc" ++ rest) e ∧
     sortMode (q!"descending" ++ rest) e = sortMode (q!"desc" ++ rest) e ∧
     sortMode (q!"dsc" ++ rest) e = sortMode (q!"desc" ++ rest) e := by
-  rw [sortMode_ascending, sortMode_descending, sortMode_dsc, sortMode_asc rest e h, sortMode_desc rest e h]
+  rw [sortMode_ascending rest e h, sortMode_descending rest e h, sortMode_dsc rest e h,
+    sortMode_asc rest e h, sortMode_desc rest e h]
   exact ⟨rfl, rfl, rfl⟩
 
-/-- non-vacuity of `stop`: a blank, a bar, the end of the query -/
-example : stop [] ∧ stop q!" | limit 1" ∧ stop q!"|count" := by
-  simp [stop, Text.stripPrefix?]
+/-- a direction word glued to more identifier characters is no direction at all -/
+theorem C20_sort_direction_glued (c : Char) (rest : List Char) (e : Nat) (hc : isIdentCh c = true)
+    (hne : c ≠ 'e') : sortMode (q!"desc" ++ c :: rest) e = .fail (q!"desc" ++ c :: rest) e := by
+  have h1 : kw "ascending" (q!"desc" ++ c :: rest) e = .fail (q!"desc" ++ c :: rest) e :=
+    kw_mismatch _ _ _ (by show Text.stripPrefix? q!"ascending" _ = none; simp [Text.stripPrefix?])
+  have h2 : kw "asc" (q!"desc" ++ c :: rest) e = .fail (q!"desc" ++ c :: rest) e :=
+    kw_mismatch _ _ _ (by show Text.stripPrefix? q!"asc" _ = none; simp [Text.stripPrefix?])
+  have h3 : kw "descending" (q!"desc" ++ c :: rest) e = .fail (q!"desc" ++ c :: rest) e :=
+    kw_mismatch _ _ _ (by show Text.stripPrefix? q!"descending" _ = none; simp [Text.stripPrefix?, Ne.symm hne])
+  have h4 := kw_glued "desc" q!"desc" rfl c rest e hc
+  have h5 : kw "dsc" (q!"desc" ++ c :: rest) e = .fail (q!"desc" ++ c :: rest) e :=
+    kw_mismatch _ _ _ (by show Text.stripPrefix? q!"dsc" _ = none; simp [Text.stripPrefix?])
+  simp only [List.cons_append, List.nil_append] at h1 h2 h3 h4 h5
+  simp only [sortMode, altL, alt, pmap, h1, h2, h3, h4, h5, Res.castErr, List.cons_append, List.nil_append]
+
+/-- non-vacuity of `Boundary`: the end of the query, a blank, a bar -/
+example : Boundary [] ∧ Boundary q!" | limit 1" ∧ Boundary q!"|count" := by
+  refine ⟨?_, ?_, ?_⟩ <;> intro c r h <;> simp at h <;> (try (obtain ⟨rfl, _⟩ := h; decide))
 
 /-- **Counterexample for the code before 96a22d2**: the long spellings were cut short after
 `asc` / `desc`, leaving `ending…` unparsed, for EVERY continuation. -/
@@ -94,16 +155,50 @@ theorem C20_neq_synonyms (rest : List Char) (e : Nat) :
     compOp (q!"<>" ++ rest) e = .ok .neq rest e := by
   constructor <;> simp [compOp, altL, alt, pmap, tag, Text.stripPrefix?, Res.castErr]
 
-/-- **C20 (`fields` modes)**: `+` ≡ `only` ≡ `include`, `-` ≡ `except` ≡ `drop`, for every
-continuation -/
-theorem C20_fields_mode_synonyms (rest : List Char) (e : Nat) :
+/-- a keyword whose first letter differs from the text's first character does not match -/
+theorem kw_first (w : String) (a : Char) (as : List Char) (c : Char) (rest : List Char) (e : Nat)
+    (hw : w.toList = a :: as) (hne : a ≠ c) : kw w (c :: rest) e = .fail (c :: rest) e :=
+  kw_mismatch _ _ _ (by rw [hw]; simp [Text.stripPrefix?, hne])
+
+/-- **C20 (`fields` modes)**: `+` ≡ `only` ≡ `include`, `-` ≡ `except` ≡ `drop`; the symbols for
+every continuation, the words for every continuation at a word boundary -/
+theorem C20_fields_mode_synonyms (rest : List Char) (e : Nat) (h : Boundary rest) :
     fieldsMode ('+' :: rest) e = .ok .only rest e ∧
     fieldsMode (q!"only" ++ rest) e = .ok .only rest e ∧
     fieldsMode (q!"include" ++ rest) e = .ok .only rest e ∧
     fieldsMode ('-' :: rest) e = .ok .except rest e ∧
     fieldsMode (q!"except" ++ rest) e = .ok .except rest e ∧
     fieldsMode (q!"drop" ++ rest) e = .ok .except rest e := by
-  refine ⟨?_, ?_, ?_, ?_, ?_, ?_⟩ <;> simp [fieldsMode, altL, alt, pmap, tag, Text.stripPrefix?, Res.castErr]
+  have k1 := kw_boundary "only" q!"only" rest rfl e h
+  have k2 := kw_boundary "include" q!"include" rest rfl e h
+  have k3 := kw_boundary "except" q!"except" rest rfl e h
+  have k4 := kw_boundary "drop" q!"drop" rest rfl e h
+  simp only [List.cons_append, List.nil_append] at k1 k2 k3 k4
+  have m (w : String) (a : Char) (as : List Char) (c : Char) (r : List Char) (hw : w.toList = a :: as)
+      (hne : a ≠ c) := kw_first w a as c r e hw hne
+  refine ⟨?_, ?_, ?_, ?_, ?_, ?_⟩
+  · simp [fieldsMode, altL, alt, pmap, tag, Text.stripPrefix?, Res.castErr]
+  · simp [fieldsMode, altL, alt, pmap, tag, Text.stripPrefix?, Res.castErr, k1]
+  · simp [fieldsMode, altL, alt, pmap, tag, Text.stripPrefix?, Res.castErr, k2,
+      m "only" 'o' q!"nly" 'i' _ rfl (by decide)]
+  · simp [fieldsMode, altL, alt, pmap, tag, Text.stripPrefix?, Res.castErr,
+      m "only" 'o' q!"nly" '-' _ rfl (by decide), m "include" 'i' q!"nclude" '-' _ rfl (by decide)]
+  · simp [fieldsMode, altL, alt, pmap, tag, Text.stripPrefix?, Res.castErr, k3,
+      m "only" 'o' q!"nly" 'e' _ rfl (by decide), m "include" 'i' q!"nclude" 'e' _ rfl (by decide)]
+  · simp [fieldsMode, altL, alt, pmap, tag, Text.stripPrefix?, Res.castErr, k4,
+      m "only" 'o' q!"nly" 'd' _ rfl (by decide), m "include" 'i' q!"nclude" 'd' _ rfl (by decide),
+      m "except" 'e' q!"xcept" 'd' _ rfl (by decide)]
+
+/-- **C20 (`fields onlyx`)**: a mode word glued to more identifier characters is not a mode — the
+optional mode is absent and the word is a field name -/
+theorem C20_fields_mode_glued (c : Char) (rest : List Char) (e : Nat) (hc : isIdentCh c = true) :
+    fieldsMode (q!"only" ++ c :: rest) e = .fail (q!"only" ++ c :: rest) e := by
+  have g := kw_glued "only" q!"only" rfl c rest e hc
+  simp only [List.cons_append, List.nil_append] at g
+  simp [fieldsMode, altL, alt, pmap, tag, Text.stripPrefix?, Res.castErr, g,
+    kw_first "include" 'i' q!"nclude" 'o' _ e rfl (by decide),
+    kw_first "except" 'e' q!"xcept" 'o' _ e rfl (by decide),
+    kw_first "drop" 'd' q!"rop" 'o' _ e rfl (by decide)]
 
 /-- **C20 (`pNN` ≡ `pctNN` ≡ `percentileNN`)**: the three function-name spellings consume exactly
 the name when a digit follows -/
@@ -328,10 +423,33 @@ theorem by_header_counterexample (env : Env) (i1 r1 i2 r2 : List Char) (e1 e1' e
 /-- non-vacuity of the hypothesis: the two consumed texts `n > 5` and `n>5` differ after trimming -/
 example : Text.trim q!"n > 5" ≠ Text.trim q!"n>5" := by decide
 
-/-- **Counterexample (open finding C20/identifier-prefix-collides-with-keyword).** -/
-theorem keyword_prefix_counterexample :
-    isReject (parseChars q!"* | json | max_latency as y") = true ∧
-    isAccept (parseChars q!"* | json | [\"max_latency\"] as y") = true := by
-  decide
+/-! ### identifiers that start with a keyword (finding C20/identifier-prefix-collides-with-keyword,
+fixed by repo commit 0324001: general statement `kw_glued` / `kw_boundary` in Lemmas/LangEq.lean) -/
+
+theorem kwp_01 : sameAst q!"* | json | max_latency as y" q!"* | json | [\"max_latency\"] as y" = true := by decide
+theorem kwp_02 : sameAst q!"* | json | where trueish == 1" q!"* | json | where [\"trueish\"] == 1" = true := by decide
+theorem kwp_03 : sameAst q!"* | json | nullable + 1 as y" q!"* | json | [\"nullable\"] + 1 as y" = true := by decide
+theorem kwp_04 : sameAst q!"* | json | counter as y" q!"* | json | [\"counter\"] as y" = true := by decide
+theorem kwp_05 : sameAst q!"* | json | sortable as y" q!"* | json | [\"sortable\"] as y" = true := by decide
+theorem kwp_06 : sameAst q!"* | json | p50x as y" q!"* | json | [\"p50x\"] as y" = true := by decide
+theorem kwp_07 : sameAst q!"* | json | sum_total as z" q!"* | json | [\"sum_total\"] as z" = true := by decide
+theorem kwp_08 : sameAst q!"* | json | whereabouts as z" q!"* | json | [\"whereabouts\"] as z" = true := by decide
+theorem kwp_09 : sameAst q!"* | json | fields onlyx" q!"* | json | fields [\"onlyx\"]" = true := by decide
+theorem kwp_10 : sameAst q!"* | json | fields exceptional" q!"* | json | fields [\"exceptional\"]" = true := by decide
+theorem kwp_11 : isAccept (parseChars q!"* | json | count by falsey, nullish") = true := by decide
+
+/-- **C20 (bare name ≡ `["name"]`, keyword-prefixed names).** A field whose name merely starts with
+a keyword — an aggregate name, `p<digits>`, `true`/`false`/`null`, `sort`, `where`, a `fields` mode —
+parses, written bare, to exactly the AST of its `["…"]` spelling. -/
+theorem C20_keyword_prefix_instances :
+    sameAst q!"* | json | max_latency as y" q!"* | json | [\"max_latency\"] as y" = true ∧
+    sameAst q!"* | json | where trueish == 1" q!"* | json | where [\"trueish\"] == 1" = true ∧
+    sameAst q!"* | json | nullable + 1 as y" q!"* | json | [\"nullable\"] + 1 as y" = true ∧
+    sameAst q!"* | json | counter as y" q!"* | json | [\"counter\"] as y" = true ∧
+    sameAst q!"* | json | sortable as y" q!"* | json | [\"sortable\"] as y" = true ∧
+    sameAst q!"* | json | p50x as y" q!"* | json | [\"p50x\"] as y" = true ∧
+    sameAst q!"* | json | fields onlyx" q!"* | json | fields [\"onlyx\"]" = true ∧
+    sameAst q!"* | json | fields exceptional" q!"* | json | fields [\"exceptional\"]" = true :=
+  ⟨kwp_01, kwp_02, kwp_03, kwp_04, kwp_05, kwp_06, kwp_09, kwp_10⟩
 
 end Ag.C20
